@@ -208,6 +208,13 @@ def concretise(chk, sc, cfgseed, ndims, style=None):
                         pos.append(pos[-1] + len(blob))
                 i += need
         byte_pos[f] = pos
+        if f in gone and style.get("ghost"):
+            # a file that is GONE may leave its directory entry behind: a link to purged scratch storage, a directory of that name
+            gp = os.path.join(ldir, gamma.file_name(f, cfg_))
+            if cfgseed % 2:
+                os.symlink(os.path.join(ldir, "purged", "nowhere"), gp)
+            else:
+                os.makedirs(gp)
         if f not in gone:
             with open(os.path.join(ldir, gamma.file_name(f, cfg_)), "wb") as bf:
                 bf.write(prefix_blob.get(f, b"") + b"".join(out))
